@@ -459,6 +459,7 @@ pub fn spec(id: &str, variant: &str, cancelable: bool, thorough: bool) -> Option
                 templates: vec![(2, Template::CrossQueue), (4, Template::FanIn)],
                 ..base.clone().set(&[
                     (K::Bulk, 3),
+                    (K::Volley, 1),
                     (K::CollectorStart, 2),
                     (K::PushChildSpans, 3),
                     (K::Flush, 2),
@@ -481,7 +482,7 @@ pub fn spec(id: &str, variant: &str, cancelable: bool, thorough: bool) -> Option
                 cancelable: Some(true),
                 templates: vec![(4, Template::FanIn)],
                 ..base.clone().set(&[
-                    (K::Bulk, 1),(K::CollectorStart, 2), (K::PushChildSpans, 3), (K::Flush, 5), (K::Exit, 2), (K::Finish, 16)])
+                    (K::Bulk, 1), (K::Volley, 2), (K::CollectorStart, 2), (K::PushChildSpans, 3), (K::Flush, 5), (K::Exit, 2), (K::Finish, 16)])
             }),
             opts: api.clone(),
             oracle: o_c03,
@@ -666,7 +667,13 @@ pub fn spec(id: &str, variant: &str, cancelable: bool, thorough: bool) -> Option
                 threads: (1, 3),
                 ops: (0, 28),
                 p_sampled: 0.5,
+                // spans of unsampled traces also travel inside future/stream/sink adapters that
+                // are polled under sampled scopes
+                adapter_kinds: vec![AdapterKind::InSpan, AdapterKind::InSpanEnterOnPoll, AdapterKind::EnterOnPoll, AdapterKind::Stream, AdapterKind::Sink],
                 ..base.clone().set(&[
+                    (K::Wrap, 5),
+                    (K::Drive, 10),
+                    (K::DropAdapter, 1),
                     (K::MultiChild, 8),
                     (K::ChildOfLocal, 8),
                     (K::AddPropsH, 3),
@@ -723,6 +730,7 @@ pub fn spec(id: &str, variant: &str, cancelable: bool, thorough: bool) -> Option
                 ops: (0, 40),
                 ..base.clone().set(&[
                     (K::Churn, 3),
+                    (K::Burst, 2),
                     (K::SetLocalParent, 14),
                     (K::EnterLocal, 16),
                     (K::CollectorStart, 8),
@@ -801,7 +809,12 @@ pub fn spec(id: &str, variant: &str, cancelable: bool, thorough: bool) -> Option
                     (K::MultiChild, 4),
                     (K::SetLocalParent, 2),
                     (K::ChildOfLocal, 0),
-                    (K::Flush, 3),
+                    (K::Flush, 6),
+                    // attachments parked in the collector for other spans of the same traces
+                    // while the copies of a set are converted
+                    (K::AddEventH, 5),
+                    (K::AddPropsH, 3),
+                    (K::Finish, 8),
                 ])
             }),
             opts: ExecOpts {
@@ -892,6 +905,7 @@ pub fn spec(id: &str, variant: &str, cancelable: bool, thorough: bool) -> Option
                 cycles: (0, 4),
                 sched_len: (0, 30),
                 reentrant: true,
+                templates: vec![(1, Template::ParkedBacklog)],
                 ..base.clone().set(&[
                     (K::Fill, 8),
                     (K::Cancel, 4),
